@@ -300,6 +300,8 @@ class TypeMap:
         self.typedefs = dict(typedefs or {})  # name -> type string (learned from AST sugar + config)
         self.class_alias = dict(class_alias or {})  # qualified or last name -> C struct tag
         self.enums = set(enums or [])
+        self.arr_insts = {}  # tag -> (elem ctype, N)   std::array<T,N> -> struct vf_arr_<tag> { T a[N]; }
+        self.scalar_classes = {}  # class name -> {"ctype":..., "ops":[...]}: wrapper classes mapped to a scalar
         self.seq_insts = {}  # tag -> elem ctype
         self.pair_insts = {}  # tag -> (a,b)
         self.opt_insts = {}  # tag -> ctype
@@ -409,6 +411,14 @@ class TypeMap:
             return self.c(t.args[0])
         if last == "function" and t.args:
             return "struct vf_fn"
+        if last == "array" and len(t.args) == 2 and t.args[1].kind == "lit":
+            e = self.c(t.args[0])
+            n = re.sub(r"[uUlL]+$", "", t.args[1].name)
+            tg = self.tag(e) + "_" + n
+            self.arr_insts.setdefault(tg, (e, n))
+            return "struct vf_arr_" + tg
+        if not t.args and last in self.scalar_classes:
+            return self.scalar_classes[last]["ctype"]
         if last in ("mersenne_twister_engine", "mt19937"):
             return "struct vf_mt19937"
         if last == "result_type" and "mersenne_twister_engine" in name:
